@@ -668,6 +668,64 @@ func (e *c13Env) checkpoint(ctx sdk.Context, view c13View, full bool, mism *int)
 		combo{ep: eps[r.Intn(nOrderEps)], after: c13Max, reverse: false, keymode: r.Intn(2) == 0},
 		combo{ep: c13Endpoint{kind: "paysrc", addr: e.owners[r.Intn(len(e.owners))].String()}, reverse: true, keymode: r.Intn(2) == 0},
 	)
+	// after-order bound INSIDE a listing, small pages, so that later pages reach the bound: the
+	// bound is the id of an entry of the endpoint's own listing with at least two entries above it
+	// (and, when possible, some below); reverse key paging first, the other modes at random
+	idsOf := func(ep c13Endpoint, otype string) []uint64 {
+		var ids []uint64
+		for _, o := range view.orders {
+			if (ep.kind == "market" && o.market != ep.market) || (ep.kind == "owner" && o.owner != ep.addr) || (ep.kind == "asset" && o.asset != ep.denom) {
+				continue
+			}
+			if (otype == "ask" && o.bid) || (otype == "bid" && !o.bid) {
+				continue
+			}
+			ids = append(ids, o.id)
+		}
+		return ids
+	}
+	type bcombo struct {
+		c     combo
+		above int
+	}
+	var bounded []bcombo
+	for _, i := range r.Perm(nOrderEps) {
+		ep := eps[i]
+		for _, otype := range []string{"", []string{"ask", "bid"}[r.Intn(2)]} {
+			ids := idsOf(ep, otype)
+			if len(ids) < 3 {
+				continue
+			}
+			k := r.Intn(len(ids) - 2) // ids[k+1:] has at least two entries
+			if k == 0 && len(ids) > 3 && r.Intn(2) == 0 {
+				k = 1
+			}
+			bounded = append(bounded, bcombo{combo{ep: ep, otype: otype, after: ids[k], reverse: true, keymode: true}, len(ids) - k - 1})
+			if r.Intn(2) == 0 {
+				bounded = append(bounded, bcombo{combo{ep: ep, otype: otype, after: ids[k], reverse: r.Intn(2) == 0, keymode: r.Intn(2) == 0}, len(ids) - k - 1})
+			}
+		}
+		nb := 3
+		if full {
+			nb = 8
+		}
+		if len(bounded) >= nb {
+			break
+		}
+	}
+	for _, b := range bounded {
+		top := b.above
+		if top > 4 {
+			top = 4
+		}
+		for limit := uint64(1); limit <= uint64(top); limit++ {
+			out = append(out, e.session(ctx, b.c.ep, b.c.otype, b.c.after, limit, b.c.reverse, b.c.keymode, r.Intn(3) == 0, b.above+3, mism))
+			e.w.Count("sessions_after_bound_inside_listing")
+			if b.c.reverse && b.c.keymode {
+				e.w.Count("sessions_reverse_key_after_bound")
+			}
+		}
+	}
 	// the commitment listings: the market holding the most commitments, or all of them
 	if len(view.commits) > 0 {
 		cep := c13Endpoint{kind: "commitall"}
